@@ -248,3 +248,22 @@ V("c10-result-slots", "C10", "violation", "C10.R3", edits=[(AP, "        self._r
 V("c10-propagate-to-keeps-state", "C10", "violation", "C10.R7", edits=[(SC, "            for _ in range(int(steps)):\n                self.stepForward()\n", "            for _ in range(int(steps)):\n                self._steps_taken = getattr(self, \"_steps_taken\", 0) + 1\n                self.stepForward()\n")])
 V("c10-output-resets-previous-state", "C10", "violation", "C10.R1", edits=[("agents/target_agent.py", "        return TruthEphemeris.fromECIVector(\n            agent_id=self.simulation_id,", "        self._previous_state = self._truth_state\n        return TruthEphemeris.fromECIVector(\n            agent_id=self.simulation_id,")])
 V("c10-n-rename-dynamics-local", "C10", "pass", edits=[(SC, "        target_dynamics = dynamicsFactory(", "        truth_dynamics = dynamicsFactory("), (SC, "            dynamics=target_dynamics,\n", "            dynamics=truth_dynamics,\n")])
+
+# ------------------------------------------------------------------------------------ C16
+ME = "physics/measurements.py"
+GP = "estimation/particle/genetic_particle_filter.py"
+V("c16-innovation-raw-difference", "C16", "violation", "C16.R1", edits=[(UK, "self.innovation = residuals(self.true_y, self.mean_pred_y, self.is_angular)", "self.innovation = self.true_y - self.mean_pred_y")])
+V("c16-sigma-residual-raw", "C16", "violation", "C16.R1", edits=[(UK, "            self.sigma_y_res[:, item] = residuals(\n                sigma_obs[:, item],\n                self.mean_pred_y,\n                self.is_angular,\n            )", "            self.sigma_y_res[:, item] = sigma_obs[:, item] - self.mean_pred_y")])
+V("c16-angular-rows-linear-mean", "C16", "violation", "C16.R1", edits=[(UK, "                mean = angularMean(meas, weights=self.mean_weight, low=low, high=high)", "                mean = meas.dot(self.mean_weight)")])
+V("c16-particle-raw-difference", "C16", "violation", "C16.R1", edits=[(GP, "        self.particle_residuals = vecResiduals(\n            population_obs,\n            true_y[..., np.newaxis],\n            self.is_angular[..., np.newaxis],\n        )", "        self.particle_residuals = population_obs - true_y[..., np.newaxis]")])
+V("c16-wrap-closed-end-moved", "C16", "violation", "C16.R2", edits=[(MA, "    if fabs(angle) > const.PI:", "    if fabs(angle) >= const.PI:")])
+V("c16-wrap-modulo-dropped", "C16", "violation", "C16.R2", edits=[(MA, "    angle = remainder(angle, const.TWOPI)\n", "")])
+V("c16-residual-last-op-partial", "C16", "violation", "C16.R2", edits=[(MA, "    return wrapAngleNegPiPi(wrapAngle2Pi(val1) - wrapAngle2Pi(val2)) if angular else val1 - val2", "    return (wrapAngle2Pi(val1) - wrapAngle2Pi(val2)) if angular else val1 - val2")])
+V("c16-residual-operands-swapped", "C16", "violation", "C16.R2", edits=[(MA, "    return wrapAngleNegPiPi(wrapAngle2Pi(val1) - wrapAngle2Pi(val2)) if angular else val1 - val2", "    return wrapAngleNegPiPi(wrapAngle2Pi(val2) - wrapAngle2Pi(val1)) if angular else val1 - val2")])
+V("c16-vecwrap-partial", "C16", "violation", "C16.R2", edits=[(MA, "    return (angles + const.PI) % const.TWOPI - const.PI", "    return np.where(angles > const.PI, angles - const.TWOPI, angles)")])
+V("c16-angular-mean-different-weights", "C16", "violation", "C16.R2", edits=[(MA, "        cos_mean = cos_angles.dot(weights)", "        cos_mean = cos_angles.sum()")])
+V("c16-angular-mean-arctan-args", "C16", "violation", "C16.R2", edits=[(MA, "wrapAngle2Pi(arctan2(sin_mean, cos_mean))", "wrapAngle2Pi(arctan2(cos_mean, sin_mean))")])
+V("c16-elevation-kind-wrong", "C16", "violation", "C16.R3", edits=[(ME, "        r\"\"\":class:`.IsAngle`: This angular value is valid: :math:`\\beta \\in [0, 2\\pi]`.\"\"\"\n        return IsAngle.ANGLE_NEG_PI_PI", "        r\"\"\":class:`.IsAngle`: This angular value is valid: :math:`\\beta \\in [0, 2\\pi]`.\"\"\"\n        return IsAngle.NOT_ANGLE")])
+V("c16-flags-sorted", "C16", "violation", "C16.R3", edits=[(ME, "        self._angular_values = [meas.is_angular for meas in self._measurements]", "        self._angular_values = sorted(meas.is_angular for meas in self._measurements)")])
+V("c16-true-y-reversed", "C16", "violation", "C16.R4", edits=[(UK, "concatenate([ob.measurement_states for ob in observations], axis=0)", "concatenate([ob.measurement_states for ob in reversed(observations)], axis=0)")])
+V("c16-n-use-vector-residual", "C16", "pass", edits=[(UK, "self.innovation = residuals(self.true_y, self.mean_pred_y, self.is_angular)", "self.innovation = vecResiduals(self.true_y, self.mean_pred_y, self.is_angular)")])
